@@ -33,7 +33,7 @@ pub fn prop() -> Prop {
          Two cases in three use a schema extended by a fixed fixture (gen::opfixture: arguments of every input type, \
          interface with two implementers of differing field shapes, union, custom directives on every executable location).",
     )
-    .random("pairs", check, |t| if t == Tier::Quick { 120_000 } else { 2_400_000 }, |t| if t == Tier::Quick { 700 } else { 1000 })
+    .random("pairs", check, |t| if t == Tier::Quick { 100_000 } else { 2_000_000 }, |t| if t == Tier::Quick { 700 } else { 1000 })
     .text(check_text)
     .case_timeout(120)
     .assumptions(&[
@@ -72,7 +72,7 @@ pub fn gen_case_mode(c: &mut Choices, mode: Mode) -> Case {
     let n_mut = c.weighted(&[15, 65, 20]);
     let plan = c.bytes(24);
     let finding_constructs = c.bool(40);
-    let sub_heavy = c.bool(40);
+    let sub_heavy = c.bool(64);
     let with_fixture = c.bool(150);
     let sopts = gschema::Opts::default();
     let mut schema_doc = gschema::schema(c, &sopts);
